@@ -1,6 +1,40 @@
-//! Property C18: correspondence and oracle (stub: nothing built yet).
+//! Property C18: correspondence and oracle (probe stage).
 use crate::report::Report;
+use darklua_core::{Configuration, Options, Resources};
 
-pub fn run(report: &mut Report, _replay: Option<&str>) {
+pub fn run_real(src: &str, config: &str) -> Result<String, String> {
+    let src = src.to_owned();
+    let config = config.to_owned();
+    let r = std::panic::catch_unwind(move || -> Result<String, String> {
+        let resources = Resources::from_memory();
+        resources.write("src/f.lua", &src).map_err(|e| format!("{:?}", e))?;
+        let configuration: Configuration =
+            json5::from_str(&config).map_err(|e| format!("config: {}", e))?;
+        let options = Options::new("src/f.lua")
+            .with_output("out/f.lua")
+            .with_configuration(configuration);
+        let tree = darklua_core::process(&resources, options).map_err(|e| format!("process: {}", e))?;
+        tree.result().map_err(|errs| {
+            errs.into_iter().map(|e| e.to_string()).collect::<Vec<_>>().join("; ")
+        })?;
+        resources.get("out/f.lua").map_err(|e| format!("{:?}", e))
+    });
+    match r {
+        Ok(x) => x,
+        Err(_) => Err("panic".to_owned()),
+    }
+}
+
+pub fn run(report: &mut Report, replay: Option<&str>) {
+    if let Some(path) = replay {
+        let text = std::fs::read_to_string(path).unwrap();
+        let v: serde_json::Value = serde_json::from_str(&text).unwrap();
+        for case in v.as_array().unwrap() {
+            let src = case["src"].as_str().unwrap();
+            let config = case["config"].as_str().unwrap();
+            eprintln!("--- src={:?} config={}\n=> {:?}", src, config, run_real(src, config));
+        }
+        return;
+    }
     report.notes.push("C18: no harness yet".to_owned());
 }
